@@ -5,7 +5,7 @@
    None = ToCommandLine returns an error. *)
 From Coq Require Import List Ascii String Arith NArith ZArith Bool Lia.
 Import ListNotations.
-Require Import Bytes Dec Mach RuleTables Arch Errno Syscalls MsgType RuleDecode.
+Require Import Bytes Dec Mach RuleTables Arch Errno Syscalls MsgType RuleDecode Flags.
 Local Open Scope string_scope.
 Local Open Scope list_scope.
 Open Scope N_scope.
@@ -70,20 +70,24 @@ Definition sc_table (arch : str) : list (Z * string) :=
 Definition syscall_text (t : list (Z * string)) (n : N) : str :=
   match lookupZ (Z.of_N n) t with Some s => s2l s | None => dec n end.
 
+(* the architecture whose syscall table names the numbers: that of the last arch filter as displayed, else the runtime's *)
+Definition printer_arch (rarch : str) : option str :=
+  match runtime_arch with
+  | None => None
+  | Some rs =>
+      if str_eqb_s rarch "b32" then option_map s2l (arch32_of rs)
+      else if negb (List.length rarch =? 0)%nat && negb (str_eqb_s rarch "b64") then Some rarch else Some (s2l rs)
+  end.
+
 (* the "-S ..." arguments; rarch = display name of the last arch filter, [] when there is none *)
-Definition syscall_args (fl : N) (m : list N) (rarch : str) : option (list str) :=
-  if all_syscalls m then Some (if (fl =? 4) || (fl =? 2) then [s2l "-S"; s2l "all"] else [])
+Definition syscall_args (fl : N) (m : list N) (rarch : str) : option (list fitem) :=
+  if all_syscalls m then Some (if (fl =? 4) || (fl =? 2) then [FFlag "S" (s2l "all")] else [])
   else match syscalls_of m 0 with
        | [] => Some []
        | ns =>
-           match runtime_arch with
+           match printer_arch rarch with
            | None => None
-           | Some rs =>
-               match (if str_eqb_s rarch "b32" then option_map s2l (arch32_of rs)
-                      else if negb (List.length rarch =? 0)%nat && negb (str_eqb_s rarch "b64") then Some rarch else Some (s2l rs)) with
-               | None => None
-               | Some arch => Some [s2l "-S"; join_with [","%char] (map (syscall_text (sc_table arch)) ns)]
-               end
+           | Some arch => Some [FFlag "S" (join_with [","%char] (map (syscall_text (sc_table arch)) ns))]
            end
        end.
 
@@ -120,91 +124,102 @@ Definition equal_operator_ok : bool := match lookupS (s2l "=") operators_table w
 Fixpoint last_index (f : N) (l : list (N * N * N)) (i : nat) (acc : option nat) : option nat :=
   match l with [] => acc | (f', _, _) :: r => last_index f r (S i) (if f' =? f then Some i else acc) end.
 
-Fixpoint print_fields (l : list (N * N * N)) (idx : nat) (strings : list str) (last_arch : option nat) (sargs : list str) : option (list str) :=
+(* what is printed after the operator for a field that carries a number *)
+Definition uid_fields : list N := [1; 2; 3; 4; 9; 109].
+Definition gid_fields : list N := [5; 6; 7; 8; 110].
+Definition print_value (f v : N) : option str :=
+  if f =? 11 then display_arch v
+  else if f =? 103 then
+    let code := if v <? 2147483648 then Z.of_N v else (Z.of_N v - 4294967296)%Z in
+    Some (match lookupZ (- code)%Z errno_to_name with Some nm => "-"%char :: s2l nm | None => dec_i32 v end)
+  else if existsb (N.eqb f) uid_fields || existsb (N.eqb f) gid_fields then Some (dec_i32 v)
+  else if f =? 12 then Some (if v <=? 65535 then type_name v else dec v)
+  else if f =? 106 then Some (perm_string v)
+  else Some (dec v).
+
+(* one field / operator / value triple as a flag item; sv is the string of a string-valued field *)
+Definition print_triple (t : N * N * N) (sv : str) : option fitem :=
+  let '(f, o, v) := t in
+  match lookupN o reverse_operators_table with
+  | None => None
+  | Some ops =>
+      let op := s2l ops in
+      if f =? 11 then match display_arch v with Some d => Some (FFlag "F" (s2l "arch" ++ op ++ d)) | None => None end
+      else if f =? 111 then
+        match lookupN v reverse_comparisons_table with
+        | None => None
+        | Some (a, b) =>
+            let '(a, b) := if b <? a then (b, a) else (a, b) in
+            match lookupN a reverse_fields_table, lookupN b reverse_fields_table with
+            | Some an, Some bn => Some (FFlag "C" (s2l an ++ op ++ s2l bn))
+            | _, _ => None
+            end
+        end
+      else
+        match lookupN f reverse_fields_table with
+        | None => None
+        | Some lhs =>
+            if is_string_field f then Some (FFlag "F" (s2l lhs ++ op ++ sv))
+            else match print_value f v with Some rhs => Some (FFlag "F" (s2l lhs ++ op ++ rhs)) | None => None end
+        end
+  end.
+
+Fixpoint print_fields (l : list (N * N * N)) (idx : nat) (strings : list str) (last_arch : option nat) (sargs : list fitem) : option (list fitem) :=
   match l with
   | [] => Some []
   | (f, o, v) :: r =>
-      match lookupN o reverse_operators_table with
+      match (if is_string_field f then match strings with sv :: st => Some (sv, st) | [] => None end else Some ([], strings)) with
       | None => None
-      | Some ops =>
-          let op := s2l ops in
-          if f =? 11 then                                                    (* arch *)
-            match display_arch v with
-            | None => None
-            | Some d =>
-                match print_fields r (S idx) strings last_arch sargs with
-                | None => None
-                | Some rest => Some ((s2l "-F arch" ++ op ++ d) :: (if match last_arch with Some la => (la =? idx)%nat | None => false end then sargs else []) ++ rest)
-                end
-            end
-          else if f =? 111 then                                              (* field compare *)
-            match lookupN v reverse_comparisons_table with
-            | None => None
-            | Some (a, b) =>
-                let '(a, b) := if b <? a then (b, a) else (a, b) in
-                match lookupN a reverse_fields_table, lookupN b reverse_fields_table, print_fields r (S idx) strings last_arch sargs with
-                | Some an, Some bn, Some rest => Some ((s2l "-C " ++ s2l an ++ op ++ s2l bn) :: rest)
-                | _, _, _ => None
-                end
-            end
-          else
-            match lookupN f reverse_fields_table with
-            | None => None
-            | Some lhs =>
-                let fin rhs strings' :=
-                  match print_fields r (S idx) strings' last_arch sargs with
-                  | Some rest => Some ((s2l "-F " ++ s2l lhs ++ op ++ rhs) :: rest)
-                  | None => None end in
-                if is_string_field f then
-                  match strings with [] => None | sv :: strings' => fin sv strings' end
-                else if f =? 103 then                                         (* exit *)
-                  let code := if v <? 2147483648 then Z.of_N v else (Z.of_N v - 4294967296)%Z in
-                  fin (match lookupZ (- code)%Z errno_to_name with Some nm => "-"%char :: s2l nm | None => dec_i32 v end) strings
-                else if existsb (N.eqb f) [1; 2; 3; 4; 9; 109] || existsb (N.eqb f) [5; 6; 7; 8; 110] then fin (dec_i32 v) strings
-                else if f =? 12 then fin (if v <=? 65535 then type_name v else dec v) strings
-                else if f =? 106 then fin (perm_string v) strings
-                else fin (dec v) strings
-            end
+      | Some (sv, st) =>
+          match print_triple (f, o, v) sv, print_fields r (S idx) st last_arch sargs with
+          | Some it, Some rest =>
+              Some (it :: (if (f =? 11) && match last_arch with Some la => (la =? idx)%nat | None => false end then sargs else []) ++ rest)
+          | _, _ => None
+          end
       end
   end.
 
-Definition to_command_line (h : hdr) (r : rdata) : option str :=
-  match list_name (flags h), action_name (action h) with
+(* the line as flag items; the text joins their canonical rendering ("-x value") with blanks *)
+Definition cmd_items (fl act : N) (m : list N) (fields : list (N * N * N)) (strings : list str) : option (list fitem) :=
+  match list_name fl, action_name act with
   | Some ln, Some an =>
-      let allsys := all_syscalls (mask h) in
+      let r := {| r_fields := fields; r_strings := strings |} in
       let watch :=
-        match last_index 106 (r_fields r) 0 None with
+        match last_index 106 fields 0 None with
         | Some pidx =>
-            if allsys && is_watch (flags h) (action h) r then
-              let path := nth 0 (r_strings r) [] in
-              let key := match r_fields r with [_; _; _] => nth 1 (r_strings r) [] | _ => [] end in
-              let pv := match nth_error (r_fields r) pidx with Some (_, _, v) => v | None => 0 end in
-              Some (join_with [" "%char] ([s2l "-w"; path; s2l "-p"; perm_string pv] ++ match key with [] => [] | _ => [s2l "-k"; key] end))
+            if all_syscalls m && is_watch fl act r then
+              let path := nth 0 strings [] in
+              let key := match fields with [_; _; _] => nth 1 strings [] | _ => [] end in
+              let pv := match nth_error fields pidx with Some (_, _, v) => v | None => 0 end in
+              Some ([FFlag "w" path; FFlag "p" (perm_string pv)] ++ match key with [] => [] | _ => [FFlag "k" key] end)
             else None
         | None => None
         end in
       match watch with
       | Some t => Some t
       | None =>
-          let last_arch := last_index 11 (r_fields r) 0 None in
+          let last_arch := last_index 11 fields 0 None in
           match (match last_arch with
-                 | Some la => match nth_error (r_fields r) la with Some (_, _, v) => display_arch v | None => None end
+                 | Some la => match nth_error fields la with Some (_, _, v) => display_arch v | None => None end
                  | None => Some [] end) with
           | None => None
           | Some rarch =>
-              match syscall_args (flags h) (mask h) rarch with
+              match syscall_args fl m rarch with
               | None => None
               | Some sargs =>
-                  match print_fields (r_fields r) 0 (r_strings r) last_arch sargs with
+                  match print_fields fields 0 strings last_arch sargs with
                   | None => None
-                  | Some fs =>
-                      Some (join_with [" "%char] ([s2l "-a"; s2l an ++ ","%char :: s2l ln] ++ (match last_arch with None => sargs | Some _ => [] end) ++ fs))
+                  | Some fs => Some (FFlag "a" (s2l an ++ ","%char :: s2l ln) :: (match last_arch with None => sargs | Some _ => [] end) ++ fs)
                   end
               end
           end
       end
   | _, _ => None
   end.
+
+Definition text_of_items (its : list fitem) : str := join_with [" "%char] (flat_map render_item its).
+Definition to_command_line (h : hdr) (r : rdata) : option str :=
+  option_map text_of_items (cmd_items (flags h) (action h) (mask h) (r_fields r) (r_strings r)).
 
 Definition text_of_wire (b : str) : option str :=
   match from_wire b with
